@@ -1,92 +1,207 @@
-"""Facts for C03: the error codes the decision model uses, the except-ladder of
-RPCSession._throttled_request in source order (resolved against the live classes), whether the
-send_result call is guarded against ProtocolError, error_base_cost, fingerprints."""
-import ast
+"""Facts for C03, all obtained by RUNNING the current tree (nothing is read off the syntax):
+
+* the error codes and `error_base_cost` (public constants);
+* the behavioural ladder table: a real serving RPCSession (fake transport, virtual clock - the
+  rig the harness uses) is given ONE request or notification whose handler behaves as each
+  outcome class in turn, and what the peer and the session's public counters then show is
+  recorded: the reply (result / error code + whose message), the rise of `errors` and of `cost`,
+  whether the connection was closed, whether the excessive-cost hook ran, whether the session
+  stopped serving without closing.  Which `except` clause catches what, whether `send_result`
+  is guarded, what `encode_payload` does with the three kinds of unencodable values are all
+  consequences visible in this table - so reordering independent clauses, merging or splitting
+  them, extracting helpers or wrapping the body changes nothing here, while a change of
+  behaviour does.
+* fingerprints of the anchored functions (a drift only deepens the quick tier).
+"""
 from . import common
+
+KINDS = ('R', 'N')
+
+
+def _rows(repo):
+    from harness import c03 as H
+    rows = []
+    probes = []
+    for kind in KINDS:
+        for o in H.OUTCOMES:
+            ns = [1]
+            if o in ('u', 'du'):
+                ns = [0, 1, 2]
+            if o == 'o':
+                ns = list(range(H.N_OTHER))
+            if o == 'b':
+                ns = [0, 1]
+            if o == 'x' and kind != 'R':
+                continue
+            for n in ns:
+                probes.append((kind, H.concrete(o, n), H.mk([(kind, H.concrete(o, n), 0 if o == 'x' else 1)]), ''))
+        # the processing timeout expires while the request is still queued for a slot / still
+        # in the cost-throttle sleep: same outcome class as an overrun in the handler
+        probes.append((kind, ('t',), H.mk([('R', ('t',), 1), (kind, ('v', 5), 1)], conc=1), 'queued'))
+        probes.append((kind, ('t',), H.mk([(kind, ('v', 5), 1)], throttle=40), 'throttled'))
+    for kind, o, case, note in probes:
+        obs = H.run_case(repo, case)
+        idx = len(case['items']) - 1
+        rep = obs['replies'].get(idx)
+        sn = obs['snaps'][-1]
+        errors, cost = sn[1], sn[2]
+        if note == 'queued':
+            # the request in front (an overrun too) is charged as well: take it off
+            errors -= 1
+            cost -= _base(repo)
+        rows.append({'kind': kind, 'outcome': list(o), 'note': note,
+                     'reply': H.canon_reply(rep) if rep is not None else None,
+                     'errors': errors, 'cost': int(round(cost)), 'closed': bool(obs['closed']),
+                     'hook': obs['hook'] > 0,
+                     'escaped': obs['probe'] is not True and not obs['closed']})
+    return rows
+
+
+SCHED_DURS = [[7, 13, 4], [22, 9, 4], [5, 28, 26, 1], [7, 13, 21, 4], [22, 3, 20, 2], [12, 11, 3, 29, 6]]
+
+
+def _schedule_rows(repo):
+    """the K-slot schedule, observed: requests that arrive together (even rows) or one after the
+    other (odd rows) on sessions with `slots` = 1..3 and a throttle sleep of 0 / 9 s; for each
+    request the instant at which its handler reached its outcome, or the instant of its
+    processing deadline if it was answered 'server busy' instead (on every other row one of the
+    requests never ends by itself)"""
+    from harness import c03 as H
+    rows = []
+    n = 0
+    for slots in (1, 2, 3):
+        for throttle in (0, 9):
+            for vi, durs in enumerate(SCHED_DURS):
+                n += 1
+                never = (slots + vi) % len(durs) if vi % 2 else None
+                arr = [0] * len(durs)
+                if n % 2 and not throttle:
+                    arr = [3 * i + (i * i) % 4 for i in range(len(durs))]
+                items = [('R', ('t',) if i == never else ('v', i), d) for i, d in enumerate(durs)]
+                case = H.mk(items, arr=arr, conc=slots, throttle=throttle)
+                if not H.no_ties(case):
+                    continue
+                obs = H.run_case(repo, case)
+                times = []
+                for i in range(len(items)):
+                    rec = obs['hlog'].get(i)
+                    rep = obs['replies'].get(i)
+                    if rec and rec[1] is not None and abs(rec[1] - round(rec[1])) < 1e-6:
+                        times.append((int(round(rec[1])), i))
+                    elif rep is not None and H.canon_reply(rep).startswith(f'E{H_busy(repo)}:'):
+                        times.append((arr[i] + H.P, i))
+                    else:
+                        times.append((999999, i))
+                rows.append({'slots': slots, 'throttle': throttle,
+                             'items': [[d, i == never, arr[i]] for i, d in enumerate(durs)],
+                             'completions': [[i, t] for t, i in sorted(times)]})
+    return rows
+
+
+def H_busy(repo):
+    return common.fresh_import(repo, 'aiorpcx.jsonrpc').JSONRPC.SERVER_BUSY
+
+
+def _base(repo):
+    sess = common.fresh_import(repo, 'aiorpcx.session')
+    return int(sess.SessionBase.error_base_cost)
 
 
 def extract(repo):
     sess = common.fresh_import(repo, 'aiorpcx.session')
     jr = common.fresh_import(repo, 'aiorpcx.jsonrpc')
-    tree = common.parse(repo, 'aiorpcx/session.py')
-    fn = common.find(tree, 'RPCSession._throttled_request')
-    ladder, guarded = [], False
-    if fn is not None:
-        tries = [n for n in fn.body if isinstance(n, ast.Try)]
-        if tries:
-            for h in tries[0].handlers:
-                t = h.type
-                names = [e.id if isinstance(e, ast.Name) else ast.unparse(e) for e in
-                         (t.elts if isinstance(t, ast.Tuple) else [t])]
-                ladder.append(names)
-        # is `request.send_result(...)` inside a try that catches ProtocolError?
-        for n in ast.walk(fn):
-            if isinstance(n, ast.Try) and n is not (tries[0] if tries else None):
-                calls = [c for b in n.body for c in ast.walk(b) if isinstance(c, ast.Call)
-                         and isinstance(c.func, ast.Attribute) and c.func.attr == 'send_result']
-                catches = [e.id if isinstance(e, ast.Name) else ast.unparse(e)
-                           for h in n.handlers if h.type is not None
-                           for e in (h.type.elts if isinstance(h.type, ast.Tuple) else [h.type])]
-                if calls and 'ProtocolError' in catches:
-                    guarded = True
     return {
         'cfg': {'internal': jr.JSONRPC.INTERNAL_ERROR, 'busy': jr.JSONRPC.SERVER_BUSY,
                 'excessive': jr.JSONRPC.EXCESSIVE_RESOURCE_USAGE,
                 'base': int(sess.SessionBase.error_base_cost)},
-        'ladder': ladder,
-        'send_result_guarded': guarded,
-        'rpcerror_is_exception': issubclass(jr.RPCError, Exception),
-        'protocolerror_is_rpcerror': issubclass(jr.ProtocolError, jr.RPCError),
-        'encode_failure_code': _encode_failure_code(jr),
+        'table': _rows(repo),
+        'schedule': _schedule_rows(repo),
         'fingerprints': common.fingerprints(repo, {
             'aiorpcx/session.py': ['RPCSession._throttled_request', 'SessionBase.process_messages',
                                    'SessionBase._process_messages', 'SessionBase._bump_errors',
-                                   'RPCSession._process_messages_loop'],
-            'aiorpcx/jsonrpc.py': ['JSONRPC.encode_payload', 'JSONRPCConnection._send_result']}),
+                                   'RPCSession._process_messages_loop', 'SessionBase.bump_cost',
+                                   'SessionBase._send_message', 'Concurrency.__aenter__',
+                                   'Concurrency._retarget_semaphore'],
+            'aiorpcx/jsonrpc.py': ['JSONRPC.encode_payload', 'JSONRPCConnection._send_result',
+                                   'JSONRPCConnection._receive_request_batch']}),
     }
 
 
-def _encode_failure_code(jr):
-    """what encode_payload raises for the three ways json.dumps can fail: a set (TypeError), a
-    circular reference (ValueError), nesting beyond the recursion limit (RecursionError).
-    Returns the common ProtocolError code, or the first deviating outcome."""
-    circ = [1]
-    circ.append(circ)
-    deep = cur = []
-    for _ in range(3000):
-        nxt = []
-        cur.append(nxt)
-        cur = nxt
-    codes = []
-    for v in ({1, 2}, circ, deep):
-        try:
-            jr.JSONRPCv2.encode_payload(v)
-            codes.append('encoded')
-        except jr.ProtocolError as e:
-            codes.append(e.code)
-        except BaseException as e:      # noqa
-            codes.append(type(e).__name__)
-    if all(c == codes[0] for c in codes):
-        return codes[0]
-    return next(c for c in codes if not isinstance(c, int))
+def _P():
+    from harness import c03 as H
+    return H.P
+
+
+def lean_outcome(o):
+    k = o[0]
+    i = lambda x: f'({x})' if x < 0 else str(x)
+    if k == 'v':
+        return f'.returns (.value {o[1]})'
+    if k == 'u':
+        return f'.returns (.unencodable {o[1]})'
+    if k == 'e':
+        return f'.returns (.error {i(o[1])} {o[2]} {o[3]})'
+    if k == 'r':
+        return f'.raisesRpcError {i(o[1])} {o[2]} {o[3]}'
+    if k == 'p':
+        return f'.raisesProtocolError {i(o[1])} {o[2]}'
+    if k == 'dv':
+        return f'.replyAndDisconnect (.value {o[1]})'
+    if k == 'du':
+        return f'.replyAndDisconnect (.unencodable {o[1]})'
+    if k == 'de':
+        return f'.replyAndDisconnect (.error {i(o[1])} {o[2]} {o[3]})'
+    return {'o': '.raisesOther', 't': '.overruns', 'x': '.excessiveCost', 'xe': '.raisesExcessive',
+            'd0': '.replyAndDisconnectNoArg', 'tt': '.raisesTaskTimeout', 'b': '.raisesBase'}[k]
+
+
+def lean_reply(r):
+    if r is None:
+        return 'none'
+    try:
+        if r.startswith('R') and r[1:].isdigit():
+            return f'some (true, {int(r[1:])}, 0)'
+        if r.startswith('E'):
+            code, msg = r[1:].rsplit(':', 1)
+            code = int(code)
+            m = 0 if msg == 'lib' else int(msg)
+            return f'some (false, {"(" + str(code) + ")" if code < 0 else code}, {m})'
+    except ValueError:
+        pass
+    return 'some (true, 0, 999999)'        # something the model has no notation for
 
 
 def render(f):
     c = f['cfg']
-    lad = ', '.join('[' + ', '.join(f'"{n}"' for n in names) + ']' for names in f['ladder'])
     b = lambda x: str(bool(x)).lower()
+    rows = []
+    for n, r in enumerate(f['table']):
+        sep = ',' if n + 1 < len(f['table']) else ''
+        note = f'   -- {r["note"]}' if r['note'] else ''
+        rows.append(f'  ({b(r["kind"] == "R")}, {lean_outcome(r["outcome"])}, '
+                    f'{{ escaped := {b(r["escaped"])}, reply := {lean_reply(r["reply"])}, '
+                    f'errors := {max(0, r["errors"])}, cost := {max(0, r["cost"])}, closed := {b(r["closed"])}, '
+                    f'hook := {b(r["hook"])} }}){sep}{note}')
     return (
+        'import Aiorpcx.C03.Model\n'
         '/-! GENERATED by tools/facts/c03.py from /repo on every run - do not edit. -/\n'
         'namespace Aiorpcx.Facts.C03\n'
+        'open Aiorpcx.C03\n'
         f'def internalError : Int := {c["internal"]}\n'
         f'def serverBusy : Int := {c["busy"]}\n'
         f'def excessiveUsage : Int := {c["excessive"]}\n'
         f'def baseCost : Nat := {c["base"]}\n'
-        '/-- except clauses of `_throttled_request`, in source order -/\n'
-        f'def ladder : List (List String) := [{lad}]\n'
-        '/-- `request.send_result(..)` sits in a try that catches ProtocolError -/\n'
-        f'def sendResultGuarded : Bool := {b(f["send_result_guarded"])}\n'
-        f'def rpcErrorIsException : Bool := {b(f["rpcerror_is_exception"])}\n'
-        '/-- code of the ProtocolError `encode_payload` raises for an unencodable payload -/\n'
-        f'def encodeFailureCode : Int := {f["encode_failure_code"] if isinstance(f["encode_failure_code"], int) else 0}\n'
+        '/-- the behavioural ladder table: (is a request (else a notification), what the handler\n'
+        '    did, what the real session was observed to do) -/\n'
+        'def table : List (Bool × Outcome × Obs) := [\n' + '\n'.join(rows) + '\n]\n'
+        '/-- processing timeout of the probe sessions -/\n'
+        f'def probeDeadline : Nat := {_P()}\n'
+        '/-- the observed schedule: (slots, throttle sleep, [(handler duration, never ends,\n'
+        '    instant of arrival)], [(request, instant of completion)] in order of completion) -/\n'
+        'def scheduleTable : List (Nat × Nat × List (Nat × Bool × Nat) × List (Nat × Nat)) := [\n'
+        + ',\n'.join(
+            f'  ({r["slots"]}, {r["throttle"]}, '
+            f'[{", ".join(f"({d}, {b(t)}, {a})" for d, t, a in r["items"])}], '
+            f'[{", ".join(f"({i}, {t})" for i, t in r["completions"])}])' for r in f['schedule'])
+        + '\n]\n'
         'end Aiorpcx.Facts.C03\n')
